@@ -145,3 +145,15 @@ int fx17_hdec_good(uint32_t *dest, size_t dmax, uint32_t cp) { FX_HDEC(588, (sin
 int fx17_hdec_ncount(uint32_t *dest, size_t dmax, uint32_t cp) { FX_HDEC(560, (sindex % 560) / 28, tindex) }
 int fx17_hdec_vmod(uint32_t *dest, size_t dmax, uint32_t cp) { FX_HDEC(588, (sindex % 588) / 21, tindex) }
 int fx17_hdec_always3(uint32_t *dest, size_t dmax, uint32_t cp) { FX_HDEC(588, (sindex % 588) / 28, 1) }
+/* room clause of the same walk (reported under C01): every slot stored lies inside the dmax elements */
+int fx17_hdec_room_tight(uint32_t *dest, size_t dmax, uint32_t cp) {
+    uint32_t sindex = cp - 0xAC00;
+    uint32_t tindex = sindex % 28;
+    const size_t len = tindex ? 3 : 2;
+    if (dmax < len) return -1;                     /* the terminator at dest[len] needs dmax >= len + 1 */
+    dest[0] = sindex / 588 + 0x1100;
+    dest[1] = (sindex % 588) / 28 + 0x1161;
+    if (tindex) dest[2] = tindex + 0x11A7;
+    dest[len] = 0;
+    return (int)len;
+}
